@@ -370,6 +370,13 @@ def to_poly(t):
         d = _aff_as_disjoint(t)
         if d is not None:
             return d
+        # constant bits outside everything the linear part can set add like an ordinary summand
+        c0 = t.aux[0]
+        if c0:
+            lin = xor(t, const(c0, w))
+            k_, v_ = known_bits(lin)
+            if (c0 & ~(k_ & ~v_)) == 0 and lin.op != "const":
+                return {(): c0, (_atom_reg(lin),): 1}
     return {(_atom_reg(t),): 1}
 
 
@@ -448,7 +455,8 @@ def mk_ring(w, poly):
             break
         at = _ATOM[mono[0]]
         s = co.bit_length() - 1
-        span = (mask(min(at.w, w)) << s) & m
+        ka_, va_ = known_bits(at)
+        span = ((mask(at.w) & ~(ka_ & ~va_)) << s) & m  # bits the atom can possibly set
         if span & occupied:
             ok = False
             break
